@@ -337,6 +337,25 @@ static void vf_trace_dump(int sig, siginfo_t *si, void *uc)
 				fprintf(stderr, "VF_TRACE %llu tid=%d %s:%d op=%d phase=%d addr=%p val=%#llx\n", (unsigned long long)e->seq, e->tid, e->func, e->line, e->op, e->phase, (void *)e->addr, (unsigned long long)e->val);
 		}
 	}
+	/* a trap in a dispose path: the crashing thread's last "release" names the object; print every recorded atomic on that
+	 * object (reference counts, state word, list pointers) from all threads */
+	if (tl_ring) {
+		unsigned n = tl_ring->n < VF_TR_N ? tl_ring->n : VF_TR_N;
+		const vf_tr_ent_t *last = NULL;
+		for (unsigned i = 0; i < n; i++) { const vf_tr_ent_t *e = &tl_ring->e[i]; if (strstr(e->func, "release") && (!last || e->seq > last->seq)) last = e; }
+		if (last) {
+			uintptr_t base = ((uintptr_t)last->addr & ~(uintptr_t)15), olo = base - 16, ohi = base + 0x90;
+			fprintf(stderr, "VF_TRACE: object of the last release on this thread (%s, %p): atomics on [%p,%p):\n", last->func, (void *)last->addr, (void *)olo, (void *)ohi);
+			for (vf_tr_ring_t *r = atomic_load(&g_tr_rings); r; r = r->next) {
+				unsigned m = r->n < VF_TR_N ? r->n : VF_TR_N;
+				for (unsigned i = 0; i < m; i++) {
+					vf_tr_ent_t *e = &r->e[i];
+					if ((uintptr_t)e->addr >= olo && (uintptr_t)e->addr < ohi)
+						fprintf(stderr, "VF_TRACE_OBJ %llu tid=%d %s:%d op=%d phase=%d addr=%p val=%#llx\n", (unsigned long long)e->seq, e->tid, e->func, e->line, e->op, e->phase, (void *)e->addr, (unsigned long long)e->val);
+				}
+			}
+		}
+	}
 	fflush(stderr);
 	signal(sig, SIG_DFL);
 	raise(sig);
